@@ -240,6 +240,11 @@ class Emitter:
         w('struct hist_none {}; struct hist_always {}; template<class... E> struct hist_shallow {};')
         w('#endif')
         w('}')
+        w('#if CFG >= 5')
+        w('#define KLEENE_T std::any')
+        w('#else')
+        w('#define KLEENE_T boost::any')
+        w('#endif')
         w('namespace gen {')
         w('using namespace boost::msm::front;')
         # events
@@ -255,10 +260,14 @@ class Emitter:
             if e.get('kleene'):
                 continue
             b = e.get('base')
+            body = e.get('body', 0)
+            bm = (' unsigned char body_%s[%d]; void fill_%s(){ for(int i=0;i<%d;i++) body_%s[i]=(unsigned char)(p*13+i*3+%d); } bool ok_%s() const { for(int i=0;i<%d;i++) if(body_%s[i]!=(unsigned char)(p*13+i*3+%d)) return false; return true; }'
+                  % (n, body, n, body, n, len(n), n, body, n, len(n))) if body else ''
+            fill = (' fill_%s();' % n) if body else ''
             if b:
-                w('struct %s : %s { %s(int p_=0):%s(p_){}' % (n, b, n, b))
+                w('struct %s : %s {%s %s(int p_=0):%s(p_){%s}' % (n, b, bm, n, b, fill))
             else:
-                w('struct %s { int p; %s(int p_=0):p(p_){}' % (n, n))
+                w('struct %s { int p;%s %s(int p_=0):p(p_){%s}' % (n, bm, n, fill))
             for src in sorted(convs.get(n, ())):
                 if src != n:
                     w('  %s(struct %s const& e);' % (n, src))
@@ -271,7 +280,8 @@ class Emitter:
                       'inline %s::%s(%s const& e):%s(e.p){}' % (n, n, src, e['base']))
         for e in sp['events']:
             if not e.get('kleene'):
-                w('inline std::string rt_describe(const %s& e){ return "%s#" + std::to_string(e.p); }' % (e['name'], e['name']))
+                chk = (' + (e.ok_%s() ? "" : "!CORRUPT")' % e['name']) if e.get('body') else ''
+                w('inline std::string rt_describe(const %s& e){ return "%s#" + std::to_string(e.p)%s; }' % (e['name'], e['name'], chk))
         for f in sp.get('flags', []):
             w('struct %s {};' % f)
         w('template<int N> struct G { template<class Ev,class Fsm,class S,class T> bool operator()(Ev const& e,Fsm& f,S&,T&){ return rt::guard(N,e,f); } };')
